@@ -177,6 +177,14 @@ func (s *Stream) LogRequest(id string, req *http.Request) error {
 		}
 	}
 
+	if req.Body == http.NoBody {
+		// http.NoBody tells net/http that the length is known to be zero; keep
+		// it (wrapping it makes e.g. a POST with Content-Length: 0 go out
+		// chunked) and log the empty terminal data frame right away.
+		s.sendData(id, Request, 0, true, nil, 0)
+		return nil
+	}
+
 	req.Body = &bodyLogger{
 		s:    s,
 		id:   id,
@@ -206,6 +214,14 @@ func (s *Stream) LogResponse(id string, res *http.Response) error {
 		for _, v := range vs {
 			s.sendHeader(id, Response, k, v)
 		}
+	}
+
+	if res.Body == http.NoBody {
+		// http.NoBody tells net/http that the length is known to be zero; keep
+		// it (wrapping it makes e.g. a POST with Content-Length: 0 go out
+		// chunked) and log the empty terminal data frame right away.
+		s.sendData(id, Response, 0, true, nil, 0)
+		return nil
 	}
 
 	res.Body = &bodyLogger{
